@@ -1702,19 +1702,55 @@ Proof. intros name alias per_pkg p p' mv cs [E _]. cbn. now rewrite E. Qed.
 
 (* ================= the order of the generators (GetRegisteredGenerators ranges over a map) ================= *)
 
+(* what one generator sees: its entries of the call log, in order *)
+Definition log_of_gen (g : bytes) (l : calllog) : calllog := filter (fun e => bytes_eqb g (snd (fst e))) l.
+
+Definition log_equiv (l1 l2 : calllog) : Prop := Permutation l1 l2 /\ forall g, log_of_gen g l1 = log_of_gen g l2.
+
 Definition prel_log (r1 r2 : option (list effect * calllog)) : Prop :=
   match r1, r2 with
   | None, None => True
-  | Some (e1, l1), Some (e2, l2) => Permutation l1 l2 /\ aeq e1 e2
+  | Some (e1, l1), Some (e2, l2) => log_equiv l1 l2 /\ aeq e1 e2
   | _, _ => False
   end.
 
 Definition out_equiv_log (r1 r2 : option (fs * calllog)) : Prop :=
   match r1, r2 with
   | None, None => True
-  | Some (f1, l1), Some (f2, l2) => feq f1 f2 /\ Permutation l1 l2
+  | Some (f1, l1), Some (f2, l2) => feq f1 f2 /\ log_equiv l1 l2
   | _, _ => False
   end.
+
+Lemma log_equiv_refl : forall l, log_equiv l l.
+Proof. intros l. split; [apply Permutation_refl|reflexivity]. Qed.
+
+Lemma log_equiv_app : forall a a' b b', log_equiv a a' -> log_equiv b b' -> log_equiv (a ++ b) (a' ++ b').
+Proof.
+  intros a a' b b' [P1 F1] [P2 F2]. split; [now apply Permutation_app|].
+  intros g. unfold log_of_gen in *. rewrite !filter_app. now rewrite F1, F2.
+Qed.
+
+(* entries with distinct generator names: a permutation keeps every generator's entries *)
+Lemma log_equiv_perm : forall l1 l2 : calllog,
+    Permutation l1 l2 -> NoDup (map (fun e => snd (fst e)) l1) -> log_equiv l1 l2.
+Proof.
+  intros l1 l2 HP HN. split; [exact HP|]. intros g. unfold log_of_gen.
+  pose proof (filter_perm (fun e : bytes * bytes * list call => bytes_eqb g (snd (fst e))) l1 l2 HP) as HF.
+  assert (HL : forall l : calllog, NoDup (map (fun e => snd (fst e)) l) ->
+                 length (filter (fun e => bytes_eqb g (snd (fst e))) l) <= 1).
+  { induction l as [|x l IH]; cbn; intros H; [lia|]. inversion H as [|? ? Hn Hr]; subst.
+    destruct (bytes_eqb g (snd (fst x))) eqn:E; [|now apply IH]. cbn.
+    apply bytes_eqb_spec in E.
+    assert (filter (fun e => bytes_eqb g (snd (fst e))) l = []) as ->; [|cbn; lia].
+    destruct (filter (fun e => bytes_eqb g (snd (fst e))) l) as [|y r] eqn:F; [reflexivity|]. exfalso.
+    assert (Hy : In y (filter (fun e => bytes_eqb g (snd (fst e))) l)) by (rewrite F; now left).
+    apply filter_In in Hy. destruct Hy as [Hy Ey]. apply bytes_eqb_spec in Ey.
+    apply Hn. rewrite <- E, Ey. now apply (in_map (fun e => snd (fst e))). }
+  pose proof (HL l1 HN) as H1.
+  destruct (filter (fun e => bytes_eqb g (snd (fst e))) l1) as [|x [|y r]] eqn:F1; cbn in H1; try lia.
+  - apply Permutation_nil in HF. now rewrite HF.
+  - apply Permutation_length_1_inv in HF. now rewrite HF.
+Qed.
 
 Section GenOrder.
   Variable render : gfile -> option bytes.
@@ -1798,12 +1834,20 @@ Section GenOrder.
       as [[ws1 st1]|],
       (write_loop render o a p (o _ [bs "gfs"; pk_path p] (flat_map (g_entry a p (pkg_tags o p)) gens2)) (generated_files a p) [])
       as [[ws2 st2]|]; try contradiction; [|exact I].
-    split; [|exact HF]. now apply Permutation_flat_map.
+    split; [|exact HF]. apply log_equiv_perm; [now apply Permutation_flat_map|].
+    clear -HN. induction gens1 as [|g gs IH]; cbn; [constructor|].
+    inversion HN as [|? ? Hn Hr]; subst. rewrite map_app. unfold g_log at 1.
+    destruct (gen_one true true o a p (pkg_tags o p) g) as [[calls og]|]; cbn; [|now apply IH].
+    constructor; [|now apply IH]. intros Hin. apply Hn.
+    apply in_map_iff in Hin. destruct Hin as [e [He Hin]].
+    apply in_flat_map in Hin. destruct Hin as [g' [Hg' He']]. unfold g_log in He'.
+    destruct (gen_one true true o a p (pkg_tags o p) g') as [[c' o']|]; [|contradiction].
+    destruct He' as [<-|[]]. cbn in He. rewrite <- He. now apply in_map.
   Qed.
 
   Lemma pkgs_loop_gens_perm : forall a w gens1 gens2 prev cur,
       Permutation gens1 gens2 -> NoDup (map g_name gens1) ->
-      forall l es1 es2 log1 log2, aeq es1 es2 -> Permutation log1 log2 ->
+      forall l es1 es2 log1 log2, aeq es1 es2 -> log_equiv log1 log2 ->
       prel_log (pkgs_loop true true render o a w gens1 prev cur l es1 log1)
                (pkgs_loop true true render o a w gens2 prev cur l es2 log2).
   Proof.
@@ -1815,7 +1859,7 @@ Section GenOrder.
       pose proof (pkg_execute_gens_perm a gens1 gens2 p HP HN) as HR. unfold prel_log in HR.
       destruct (pkg_execute true true render o a gens1 p) as [[e1 l1]|],
                (pkg_execute true true render o a gens2 p) as [[e2 l2]|]; try contradiction; [|exact I].
-      destruct HR as [HL HA]. apply IH; [now apply aeq_app|now apply Permutation_app].
+      destruct HR as [HL HA]. apply IH; [now apply aeq_app|now apply log_equiv_app].
   Qed.
 
   Lemma run_gens_perm : forall a e w gens1 gens2 f,
@@ -1825,7 +1869,7 @@ Section GenOrder.
     intros a e w gens1 gens2 f HP HN. unfold run, plan.
     set (prev := if a_all a && existsb snd (sorted_local o e w) then _ else None).
     pose proof (pkgs_loop_gens_perm a w gens1 gens2 prev (sum_data o w) HP HN (sorted_local o e w) [] [] [] []
-                  (aeq_refl []) (Permutation_refl [])) as HR. unfold prel_log in HR.
+                  (aeq_refl []) (log_equiv_refl [])) as HR. unfold prel_log in HR.
     destruct (pkgs_loop true true render o a w gens1 prev (sum_data o w) (sorted_local o e w) [] []) as [[es1 l1]|],
              (pkgs_loop true true render o a w gens2 prev (sum_data o w) (sorted_local o e w) [] []) as [[es2 l2]|];
       try contradiction; [|exact I].
